@@ -306,6 +306,60 @@ pub fn run(ctx: &Ctx) {
         out.op(&op, &ans, true);
         out.spec(&format!("spec.dsp.clock {} => {}", untils[..untils.len() - 1].join(","), ans));
     }
+    // ---------------------------------------------------------------- builder: setters + From<&builder> derivations
+    // raw setter arguments (in and out of the documented ranges) -> the constructor arguments of the receiver,
+    // computed from the real builder's getters exactly as receiver.rs does, against Model/BuilderCfg.lean
+    for _ in 0..(if ctx.tier_thorough { 6000 } else { 400 }) {
+        let rate = if rng.chance(1, 3) { rng.range(8000, 192000) as u32 } else { *rng.pick(&[8000u32, 11025, 16000, 22050, 44100, 48000, 96000]) };
+        let dc = *rng.pick(&[0.38f32, 0.0, -1.0, 0.01, 1.0, 2.5, 10.0, 0.05]);
+        let agcbw = *rng.pick(&[0.01f32, 0.0, 1.0, 2.0, -0.5, 0.5]);
+        let (gmin, gmax) = *rng.pick(&[(0.0f32, 1.0e6f32), (1.0 / 32767.0, 1.0 / 200.0), (1.0, 1.0), (0.5, 2.0)]);
+        let tbu = *rng.pick(&[0.125f32, 0.0, 1.0, 1.5, -0.5, 0.3]);
+        let tbl = *rng.pick(&[0.05f32, 0.0, 0.125, 1.0, 2.0, -1.0, 0.2]);
+        let dev = *rng.pick(&[0.01f32, 0.0, 0.1, 0.5, 0.75, -0.1]);
+        let sqo = *rng.pick(&[0.10f32, 0.0, 0.5, 1.0, 2.0, -1.0]);
+        let sqc = *rng.pick(&[0.05f32, 0.0, 0.1, 1.0, 3.0, -1.0]);
+        let sqbw = *rng.pick(&[0.125f32, 0.0, 1.0, 5.0, -2.0]);
+        let pme = *rng.pick(&[0u32, 1, 2, 5, 7, 32]);
+        let fpe = *rng.pick(&[0u32, 1, 2, 7, 8, 100]);
+        let fmi = *rng.pick(&[0u32, 1, 5, 8, 1000]);
+        let mut b = SameReceiverBuilder::new(rate);
+        b.with_dc_blocker_length(dc)
+            .with_agc_bandwidth(agcbw)
+            .with_agc_gain_limits(gmin, gmax)
+            .with_timing_bandwidth(tbu, tbl)
+            .with_timing_max_deviation(dev)
+            .with_squelch_power(sqo, sqc)
+            .with_squelch_bandwidth(sqbw)
+            .with_preamble_max_errors(pme)
+            .with_frame_prefix_max_errors(fpe)
+            .with_frame_max_invalid(fmi);
+        let eq = if rng.chance(1, 4) {
+            b.without_adaptive_equalizer();
+            "none".to_owned()
+        } else {
+            let ff = *rng.pick(&[0usize, 1, 2, 6, 16, 64]);
+            let fbk = *rng.pick(&[0usize, 1, 4, 6, 64, 100]);
+            let relax = *rng.pick(&[0.05f32, 0.0, 1.0, 2.0, -1.0]);
+            let reg = *rng.pick(&[1.0e-6f32, 0.0, 1.0, 1.0e30, -1.0]);
+            let mut e = sameold::EqualizerBuilder::new();
+            e.with_filter_order(ff, fbk).with_relaxation(relax).with_regularization(reg);
+            b.with_adaptive_equalizer(&e);
+            format!("{},{},{},{}", ff, fbk, fb(relax), fb(reg))
+        };
+        let (bu, bl) = b.timing_bandwidth();
+        let (au, beu) = symsync::loop_alphabeta(bu);
+        let (al, bel) = symsync::loop_alphabeta(bl);
+        let dreg = sameold::EqualizerBuilder::new().regularization();
+        let op = format!(
+            "cfg.build {} {} {} {} {} {} {} {} {} {} {} {} {} {} {} {} {} {} {} {}",
+            rate, fb(dc), fb(agcbw), fb(gmin), fb(gmax), fb(tbu), fb(tbl), fb(dev), fb(sqo), fb(sqc), fb(sqbw), pme, eq, fpe, fmi, fb(au), fb(beu), fb(al), fb(bel), fb(dreg)
+        );
+        let toks = crate::suites::fullrx::cfg_tokens(&b);
+        let ans: Vec<&str> = toks.split(' ').take(21).collect();
+        out.op(&op, &ans.join(" "), true);
+        out.count("builder_derivations");
+    }
     // the order laws the order-only theorems assume, evaluated for binary32 on a grid without NaN (the expected
     // answer is fixed: this request has no implementation side, it validates an assumption of the trusted base)
     out.op("dsp.laws", "ok 119", true);
